@@ -321,10 +321,8 @@ class PointTier(textgrid_tier.TextgridTier):
         )
         collisionReporter = utils.getErrorReporter(collisionReportingMode)
 
-        if not isinstance(entry, Point):
-            newPoint = Point(entry[0], entry[1])
-        else:
-            newPoint = entry
+        # Labels are stored without surrounding whitespace, as the constructor does
+        newPoint = Point(entry[0], entry[1].strip())
 
         matchList = []
         i = None
